@@ -44,6 +44,10 @@ POSITIONS = {
     "while_else": "def f(a, b):\n    x = 0\n    while x < a:\n        x += 1\n    else:\n{S2}\n    return x\n",
     "for_body": "def f(a, b):\n    x = 0\n    for i in range(a):\n{S2}\n        x += i\n    return x\n",
     "after_loop": "def f(a, b):\n    x = 0\n    for i in range(a):\n        x += i\n{S1}\n    return x\n",
+    "after_return": "def f(a, b):\n    x = 0\n    if a:\n        return x\n{S2}\n    return b\n",
+    "after_break": "def f(a, b):\n    x = 0\n    while x < a:\n        x += 1\n        break\n{S2}\n    return x\n",
+    "while_true_else": "def f(a, b):\n    x = 0\n    while True:\n        x += 1\n        if x > a:\n            break\n    else:\n{S2}\n    return x\n",
+    "dead_nested": "def f(a, b):\n    x = 0\n    return x\n    if a:\n        x = 1\n    else:\n{S2}\n",
     "nested_deep": "def f(a, b):\n    x = 0\n    while x < a:\n        if b:\n            for i in range(a):\n{S4}\n        x += 1\n    return x\n",
 }
 CONTROL = [
@@ -51,6 +55,11 @@ CONTROL = [
     "def f(a, b):\n    x = 0\n    if a:\n        x = 1\n    else:\n        x = 2\n    while x < b:\n        x += 1\n    else:\n        x = 5\n    for i in range(a):\n        x += i\n    return x\n",
 ]
 NON_FUNCTION = {
+    "FunctionDef+FunctionDef-input": "def f(a):\n    return a\ndef g(a):\n    return a\n",
+    "FunctionDef+Assign-input": "def f(a):\n    return a\nf = 3\n",
+    "FunctionDef+ClassDef-input": "def f(a):\n    return a\nclass K:\n    pass\n",
+    "Import+FunctionDef-input": "import os\ndef f(a):\n    return a\n",
+    "empty-input": "\n",
     "ClassDef-input": "class K:\n    def m(self):\n        return 1\n",
     "Assign-input": "x = 1\n",
     "Expr-input": "print(1)\n",
